@@ -65,7 +65,7 @@ var c19Check = &impCheck{
 		{name: "cgo", ctors: []string{"NewFile", "NewFilePathName"}, local: "l/p", paths: []string{"C", "b/C", "a/c", "fmt", "os", "x/y", "9fans.net/go", "B/b"},
 			names:   map[string]string{"b/C": "C", "a/c": "c", "C": "C", "x/y": "y"},
 			aliases: []string{"C", "c", ".", "_"}, prefixes: []string{"pkg", "C"}, maxRefs: 4, freeRefs: 2, wrappers: []int{0, imp.WrapperIndex("dictkey")},
-			anon: true, extra: true, last: true, doubles: true, preambleOpts: c19Preambles},
+			anon: true, extra: true, last: true, doubles: true, preambleOpts: c19Preambles, noFormat: true},
 	},
 }
 
